@@ -5,4 +5,4 @@ cd "$(dirname "$0")"
 export CARGO_NET_OFFLINE=true
 mkdir -p work evidence replays
 ( cd harness && cargo build --release -p runner && cargo build -p runner && cargo build --release -p runner --features mmstd --target-dir target-std ) 2>&1 | tail -n 3
-( cd harness-serde && cargo build --release ) 2>&1 | tail -n 2
+( cd harness-serde && cargo build --release && cargo build ) 2>&1 | tail -n 2
